@@ -124,7 +124,7 @@ Crash ==
   /\ img.at = -1
   /\ fresh
   /\ path # ""
-  /\ (l > Len(Trace) \/ Trace[l].ev \in {"io", "reset"})
+  /\ (IF l > Len(Trace) THEN TRUE ELSE Trace[l].ev \in {"io", "reset"})
   /\ LET pcs == {x \in DOMAIN files : files[x].pc}
          pus == {x \in DOMAIN files : files[x].pu}
      IN \E cr \in SUBSET pcs, un \in SUBSET pus, mi \in {FALSE} :
